@@ -448,20 +448,24 @@ impl LogState {
                             self.already.insert(fixname);
                         }
                         "done" => {
-                            let (rv, name) =
-                                g.done_text().expect("improperly formatted done entry");
-                            logs::meta(
-                                g.kind(),
-                                &format!(
-                                    "{} {}",
-                                    rv,
-                                    rel(&topdir, mydir, name)?
-                                        .into_os_string()
-                                        .into_string()
-                                        .expect("cannot format target as string")
-                                ),
-                                None,
-                            );
+                            // redo always writes "<status> <name>"; anything else was
+                            // written by a script and is passed through like other text.
+                            if let Some((rv, name)) = g.done_text() {
+                                logs::meta(
+                                    g.kind(),
+                                    &format!(
+                                        "{} {}",
+                                        rv,
+                                        rel(&topdir, mydir, name)?
+                                            .into_os_string()
+                                            .into_string()
+                                            .expect("cannot format target as string")
+                                    ),
+                                    None,
+                                );
+                            } else {
+                                logs::write(&clean_line(&line));
+                            }
                             lines_written += 1;
                         }
                         _ => {
